@@ -69,6 +69,17 @@ def gen_spec(rng, small=False):
             tr['k0'] = int(rng.integers(2, 5))
     nt = int(rng.integers(1, 3 if small else 5))
     tau0 = float(rng.integers(100000, 300000))
+    spec = _gen_tail(rng, cats, offsets, ncat, tracers, ni, nj, i0, j0, nt,
+                     tau0)
+    if spec['nt'] >= 2 and spec['seed'] % 9 == 4:
+        # time blocks that START together and end apart (a daily and a
+        # monthly mean of the same tracer, an instantaneous block followed
+        # by an average): each is a time block of its own
+        spec['same_start'] = True
+    return spec
+
+
+def _gen_tail(rng, cats, offsets, ncat, tracers, ni, nj, i0, j0, nt, tau0):
     return {'fmt': 'bpch', 'cats': cats, 'offsets': offsets[:ncat],
             'tracers': tracers, 'ni': ni, 'nj': nj, 'i0': i0, 'j0': j0,
             'nt': nt, 'tau0': tau0, 'dtau': float(rng.choice([1, 24, 744])),
@@ -119,7 +130,8 @@ def content(spec):
     c = {'vars': {}, 'meta': {}, 'tau0': [], 'tau1': [], 'times': {}}
     nt = spec['nt']
     for t in range(nt):
-        c['tau0'].append(spec['tau0'] + t * spec['dtau'])
+        c['tau0'].append(spec['tau0'] + (0 if spec.get('same_start')
+                                         else t) * spec['dtau'])
         c['tau1'].append(spec['tau0'] + (t + 1) * spec['dtau'])
     full = {}
     for ti, tr in enumerate(all_tracers(spec)):
